@@ -115,6 +115,116 @@ pub fn calibrate_defaults(b: &Spreadsheet, light: bool) -> Map<String, Value> {
     d
 }
 
+/// Streaming variant of `full_norm` for very large workbooks: one entry per cell / row / column / sheet-level
+/// field, each holding hashes of its sub-fields instead of a JSON tree (a 300 000-cell sheet needs ~50 MB
+/// instead of several GB).  Same normalisations as `full_norm`.
+pub type Flat = std::collections::BTreeMap<String, Vec<(String, u64)>>;
+
+pub fn flat_norm(b: &Spreadsheet, defaults: &Map<String, Value>) -> Flat {
+    fn eff(st: &mut Value, defaults: &Map<String, Value>) {
+        if let Some(m) = st.as_object_mut() {
+            for (k, d) in defaults {
+                if m.get(k).map(|x| x.is_null()).unwrap_or(false) {
+                    m.insert(k.clone(), d.clone());
+                }
+            }
+        }
+    }
+    fn fields(v: &Value) -> Vec<(String, u64)> {
+        match v.as_object() {
+            Some(m) => m.iter().map(|(k, x)| (k.clone(), fnv(x.to_string().as_bytes()))).collect(),
+            None => vec![("value".into(), fnv(v.to_string().as_bytes()))],
+        }
+    }
+    let mut out = Flat::new();
+    let mut meta = book_p_sel(b, Opts::FULL, false);
+    crate::c06::canon_names(&mut meta);
+    if let Some(m) = meta.as_object() {
+        for (k, v) in m {
+            if k != "sheets" {
+                out.insert(format!("/{}", k), fields(v));
+            }
+        }
+    }
+    let mut default_style = style_p(&Style::default());
+    eff(&mut default_style, defaults);
+    let dcol = Column::default();
+    let drow = Row::default();
+    let dcol_p = json!({"width": f64v(*dcol.get_width()), "hidden": dcol.get_hidden(), "best_fit": dcol.get_best_fit(), "style": default_style});
+    let drow_p = json!({"height": f64v(*drow.get_height()), "custom_height": drow.get_custom_height(), "hidden": drow.get_hidden(), "style": default_style});
+    for (si, ws) in b.get_sheet_collection_no_check().iter().enumerate() {
+        if let Some(m) = meta["sheets"][si].as_object() {
+            for (k, v) in m {
+                out.insert(format!("/sheets[{}]/{}", si, k), fields(v));
+            }
+        }
+        for ((row, col), c) in ws.get_collection_to_hashmap() {
+            let mut p = cell_p(c, Opts::FULL);
+            eff(&mut p["style"], defaults);
+            if p["kind"] == json!("") && p["formula"] == json!("") && p["style"] == default_style && p.get("link").is_none() {
+                continue;
+            }
+            out.insert(format!("/sheets[{}]/cells/{}", si, ckey(*col, *row)), fields(&p));
+        }
+        for r in ws.get_row_dimensions() {
+            let mut st = style_p(r.get_style());
+            eff(&mut st, defaults);
+            let p = json!({"height": f64v(*r.get_height()), "custom_height": r.get_custom_height(), "hidden": r.get_hidden(), "style": st});
+            if p != drow_p {
+                out.insert(format!("/sheets[{}]/rows/{:07}", si, r.get_row_num()), fields(&p));
+            }
+        }
+        for c in ws.get_column_dimensions() {
+            let mut st = style_p(c.get_style());
+            eff(&mut st, defaults);
+            let p = json!({"width": f64v(*c.get_width()), "hidden": c.get_hidden(), "best_fit": c.get_best_fit(), "style": st});
+            if p != dcol_p {
+                out.insert(format!("/sheets[{}]/cols/{:05}", si, c.get_col_num()), fields(&p));
+            }
+        }
+    }
+    out
+}
+
+/// Report the difference classes between two flat dumps (same symptom vocabulary as `report_diffs`).
+fn report_flat_diffs(a: &Flat, b: &Flat, clause: &str, tags: &[String], case: &Value, sink: &mut Sink) -> usize {
+    let tg: Vec<&str> = tags.iter().map(|s| s.as_str()).collect();
+    let mut seen = std::collections::BTreeSet::new();
+    let mut n = 0;
+    let mut push = |path: String, l: &str, r: &str, sink: &mut Sink| {
+        let sym = classify(&path, l, r);
+        if seen.insert(sym.clone()) {
+            sink.violations.push(Violation::new(clause, &sym, &tg, case.clone(), format!("{}: {} vs {} (large workbook: compared by field hashes)", path, l, r)));
+        }
+    };
+    for (k, fa) in a {
+        match b.get(k) {
+            None => {
+                n += 1;
+                push(k.clone(), "present", "<absent>", sink);
+            }
+            Some(fb) => {
+                if fa != fb {
+                    n += 1;
+                    let field = fa.iter().find(|x| !fb.contains(x)).map(|x| x.0.clone()).or_else(|| fb.iter().find(|x| !fa.contains(x)).map(|x| x.0.clone())).unwrap_or_default();
+                    push(format!("{}/{}", k, field), "hash-a", "hash-b", sink);
+                }
+            }
+        }
+    }
+    for k in b.keys() {
+        if !a.contains_key(k) {
+            n += 1;
+            push(k.clone(), "<absent>", "present", sink);
+        }
+    }
+    n
+}
+
+fn cell_count(b: &Spreadsheet) -> usize {
+    b.get_sheet_collection_no_check().iter().map(|ws| ws.get_collection_to_hashmap().len()).sum()
+}
+
 fn classify(path: &str, l: &str, r: &str) -> String {
     let parts: Vec<&str> = path.split('/').filter(|s| !s.is_empty()).collect();
     let field = if parts.first().map(|p| p.starts_with("sheets")).unwrap_or(false) { parts.get(1).cloned().unwrap_or("sheet") } else { parts.first().cloned().unwrap_or("") };
@@ -274,6 +384,34 @@ impl Space for Stability {
                 return;
             }
         };
+        if cell_count(&m0) > 40_000 {
+            // large workbook: generations + save-twice on streaming (field-hash) dumps; no edit enumeration
+            sink.count("large_sources_streaming_mode", 1);
+            let defaults = calibrate_defaults(&m0, src.light);
+            let f0 = flat_norm(&m0, &defaults);
+            let mut prev = f0;
+            let mut cur = m0;
+            let names = ["orig-equals-gen1", "gen1-equals-gen2", "gen2-equals-gen3"];
+            for g in 0..3 {
+                sink.beat.note(&format!("{} generation {} (streaming)", src.name, g + 1));
+                match rt(&cur, src.light) {
+                    Ok((_, b2)) => {
+                        let f = flat_norm(&b2, &defaults);
+                        sink.hashes.push(fnv(format!("{:?}", f.iter().take(2000).collect::<Vec<_>>()).as_bytes()));
+                        report_flat_diffs(&prev, &f, names[g], &tags, &case, sink);
+                        prev = f;
+                        cur = b2;
+                        sink.count("transitions", 1);
+                    }
+                    Err(e) => {
+                        sink.violations.push(Violation::new("generation-succeeds", &format!("gen{}-failed:{}", g + 1, panic_class(&e)), &tg0, case.clone(), e));
+                        return;
+                    }
+                }
+            }
+            sink.evaluations += 1;
+            return;
+        }
         let defaults = calibrate_defaults(&m0, src.light);
         let d0 = full_norm(&m0, &defaults);
         content_tags(&d0, &mut tags);
@@ -443,11 +581,6 @@ pub fn space(tier: Tier, id: &str) -> Option<Box<dyn Space>> {
                 if tier == Tier::Quick && size > 60_000 {
                     continue;
                 }
-                // the full dumps of the three largest corpus files (0.8 - 1.2 MB, several 10^5 cells) need more
-                // than the workers' address-space cap per generation; they are covered by C02 and C03 only
-                if size > 600_000 {
-                    continue;
-                }
                 let name = f.rsplit('/').next().unwrap_or("").to_string();
                 for light in [false, true] {
                     if light && tier == Tier::Quick {
@@ -503,7 +636,7 @@ fn run(ctx: &Ctx) -> i32 {
             level: "model_checking",
             rule: "histories over {S = save+reload, E(c,k) = single-cell edit} from every initial state (corpus file / generated lattice workbook / channel workbook): S, SS, SSS; E(c,k) S for every cell c (capped per sheet, cap stated) + the last cell + one fresh position and k in {set text, set number, set blank, remove}; save twice. Oracle: full normalised dump gen1==gen2==gen3, orig==gen1, dump(E S) differs from dump(S) only in cell c and its row/column entry, two saves of one workbook have the same parts and part contents. states = distinct generation dumps, transitions = save/reload steps executed (each on the real library)".into(),
             alphabets: json!({"edit_kinds": EDIT_KINDS, "corpus_files": corpus_files().len(), "lattice_subsets": lattice_subsets(ctx.tier).len(), "channels": CHANNELS.len(), "specials": SPECIALS.len()}),
-            bounds: json!({"generations": 3, "edit_time_budget_per_source_ms": if ctx.tier == Tier::Quick {1500} else {60000}, "edit_cap_per_sheet": if ctx.tier == Tier::Quick {"2 (corpus), 64 (generated)"} else {"64"}, "corpus": if ctx.tier == Tier::Quick {"files <= 60 kB, standard writer"} else {"files <= 600 kB (3 larger files excluded: their full dumps exceed the worker memory cap), both writers"},
+            bounds: json!({"generations": 3, "edit_time_budget_per_source_ms": if ctx.tier == Tier::Quick {1500} else {60000}, "edit_cap_per_sheet": if ctx.tier == Tier::Quick {"2 (corpus), 64 (generated)"} else {"64"}, "corpus": if ctx.tier == Tier::Quick {"files <= 60 kB, standard writer"} else {"all files, both writers; workbooks with more than 40 000 cells (3 corpus files) are compared by streaming field-hash dumps: generations only, no edit enumeration"},
                 "normalised_away_on_both_sides": ["a style component that was never set == the workbook default component (calibrated per workbook)", "defined names compared by scope, not by holder object", "blank cells without formatting/hyperlink", "row entries carrying nothing", "column entries carrying only the default width", "docProps parts and sharedStrings count attributes in the save-twice comparison"]}),
             exhaustive: true,
             caps_hit: vec![],
